@@ -45,6 +45,13 @@ def build(tier, rnd):
     for k, s in (d1 if tier == "thorough" else d1[::3]):
         out.append((k, s, ["ansi"]))
     out += same_alias_cases(45 if tier == "quick" else 600, common.env.seed() * 31 + 7)
+    # CTEs that reference themselves, with and without the RECURSIVE keyword
+    for key, st, ds in c01.recursive_cte_cases(10 if tier == "quick" else 80, common.env.seed() * 41 + 9):
+        if key[1] % 2 and st.kind in KINDS:
+            st.query.recursive = True
+            ds = ["ansi", "postgres", "mysql", "sqlite"][: 2 + key[1] % 3]
+        if st.kind in KINDS:
+            out.append((key, st, ds))
     return out
 
 
